@@ -72,6 +72,20 @@ pub fn escape_regexp_symbols(s: &str, escape_non_ascii: bool, use_surrogate_pair
     grapheme.value()
 }
 
+/// `Grapheme::char_count` of a grapheme holding the given units.
+pub fn char_count(units: Vec<String>, is_non_ascii_char_escaped: bool) -> usize {
+    Grapheme::new(units, 1, 1, false, false, false).char_count(is_non_ascii_char_escaped)
+}
+
+/// `indent_regexp` (verbose-mode indentation) with the given anchor / colour settings.
+pub fn indent_regexp(regexp: String, is_start_anchor_disabled: bool, is_output_colorized: bool) -> String {
+    let mut config = RegExpConfig::new();
+    config.is_verbose_mode_enabled = true;
+    config.is_start_anchor_disabled = is_start_anchor_disabled;
+    config.is_output_colorized = is_output_colorized;
+    crate::regexp::verif_forward::indent_regexp(regexp, &config)
+}
+
 /// The units `GraphemeCluster::from` splits `s` into.
 pub fn split_graphemes(s: &str) -> Vec<String> {
     let config = RegExpConfig::new();
